@@ -42,7 +42,7 @@ def strat():
     @st.composite
     def case(draw):
         C = draw(st.integers(3, 8))
-        bs = draw(st.sampled_from([1, 2, 4]))
+        bs = draw(st.sampled_from([1, 2, 4, 1, 2, 4, 8, 16]))
         limit = 480 * bs
         if draw(st.integers(0, 7)) == 0:
             # a character table as large as the number of output frames of a (padded) batch: 24/32/40 classes and a list
@@ -56,7 +56,7 @@ def strat():
                 crops.append(dict(T=draw(st.integers(1, hi)), tail=draw(st.integers(0, 3)), seed=draw(st.integers(0, 2 ** 31 - 1)),
                                   style=draw(st.sampled_from(["onehot", "graded"]))))
             return dict(C=C, bs=bs, crops=crops, perm=list(draw(st.permutations(list(range(n))))), blur=0,
-                        mode=draw(st.sampled_from(["sparse", "dense", "tight", "nologits"])), other_bs=draw(st.sampled_from([1, 2, 3, 4])))
+                        mode=draw(st.sampled_from(["sparse", "dense", "tight", "nologits"])), other_bs=draw(st.sampled_from([1, 2, 3, 4, 5, 7, 8, 16])))
         pk = draw(st.integers(0, 39))
         narrow = False
         if pk == 0:             # more lines than any internal chunk: a list of a few hundred short lines
@@ -95,7 +95,7 @@ def strat():
         perm = list(draw(st.permutations(list(range(n)))))
         return dict(C=C, bs=bs, crops=crops, perm=perm, blur=draw(st.sampled_from([0, 0, 2])),
                     mode=draw(st.sampled_from(["sparse", "sparse", "dense", "tight", "nologits"])),
-                    other_bs=draw(st.sampled_from([1, 2, 3, 4])))
+                    other_bs=draw(st.sampled_from([1, 2, 3, 4, 5, 7, 8, 16])))
     return case()
 
 
